@@ -532,7 +532,7 @@ impl Deb822 {
                 // The blank line added in front of the new paragraph must not
                 // double as the terminator of an unterminated last line.
                 terminate_last_line(&self.0);
-                self.0.children().count()
+                self.0.children_with_tokens().count()
             }
         };
         self.0
